@@ -1,6 +1,6 @@
 --------------------------------- MODULE Denote ---------------------------------
 (* Dispatch from an operation event to its reference meaning.                    *)
-EXTENDS Views, Broadcast
+EXTENDS Views, Broadcast, Slice
 
 Operand(e, j) == Leaf(e.shapes[j], j - 1)
 
@@ -15,6 +15,8 @@ Expect(e) ==
       [] e.op = "squeeze"     -> Squeeze(a)
       [] e.op = "atleast_nd"  -> AtLeastND(a, e.args.nd)
       [] e.op = "flip"        -> Flip(a, e.args.axis)
+      \* C05
+      [] e.op = "slice" -> SliceView(a, e.args.parts)
       \* C06
       [] e.op = "broadcast_shape" -> LET r == BShapeN(e.shapes) IN [ok |-> r[1], shape |-> r[2], elems |-> <<>>]
       [] e.op = "shape_broadcast_to" -> IF BroadcastToOk(e.shapes[1], e.args.dst) THEN [ok |-> TRUE, shape |-> e.args.dst, elems |-> <<>>] ELSE Nothing
